@@ -12,7 +12,7 @@ What was a hypothesis about the oracle in C01 / C06 is discharged here from the 
 What is LEFT as a hypothesis, once, in `library_round_trip`: the correction bytes of an accepted stream
 fit the u32 length field of the chunk format (`hcorr`).
 
-SIZE: files below 512 MiB (`2^29` bytes) — the bound of the byte-level stream theorems (the model's
+SIZE: files below 4 GiB (`2^32` bytes, the width of the container length fields; single candidates below `2^61`) — the bound of the byte-level stream theorems (the model's
 2^32-iteration bound on the block loop of `recompress_deflate_stream`); the scanner only probes
 candidates cut out of the file (`Proofs.Cand`), which is how the bound on the file carries over.
 -/
@@ -24,13 +24,13 @@ namespace Preflate
 open Proofs
 
 /-- the scanner's acceptance test (analysis, reconstruction, comparison) with the concrete stream
-    functions does not panic, on ANY list of numbers below 512 MiB -/
-theorem library_no_panic (d : Bytes) (m : String) (hd : d.length < 2 ^ 29) :
+    functions does not panic, on ANY list of numbers below 2^61 -/
+theorem library_no_panic (d : Bytes) (m : String) (hd : d.length < 2 ^ 61) :
     libOracle.verified d ≠ .error (.panic m) :=
   Proofs.lib_no_panic d m hd
 
 /-- … and does not exhaust a loop bound of the model -/
-theorem library_no_fuel (d : Bytes) (hd : d.length < 2 ^ 29) :
+theorem library_no_fuel (d : Bytes) (hd : d.length < 2 ^ 61) :
     libOracle.verified d ≠ .error .fuel :=
   Proofs.lib_no_fuel_lt d hd
 
@@ -39,19 +39,19 @@ theorem library_plain_size (d : Bytes) (r : Res) (h : libOracle.verified d = .ok
     r.plain.length < 2 ^ 32 :=
   Proofs.lib_plain_lt d r h
 
-/-- on a byte candidate below 512 MiB the reconstruction check that `Oracle.verified` adds always
+/-- on a byte candidate below 2^61 bytes the reconstruction check that `Oracle.verified` adds always
     passes: acceptance by the scanner = Ok from `decompress_deflate_stream` -/
-theorem library_verified_is_analyze (d : Bytes) (hb : ∀ b ∈ d, b < 256) (hd : d.length < 2 ^ 29) :
+theorem library_verified_is_analyze (d : Bytes) (hb : ∀ b ∈ d, b < 256) (hd : d.length < 2 ^ 61) :
     libOracle.verified d = libOracle.analyze d :=
   Proofs.lib_verified_bytes d hb hd
 
-/-- **C01, concrete.** Every file of bytes below 512 MiB: `expand` returns Ok (no panic anywhere in
+/-- **C01, concrete.** Every file of bytes below 4 GiB: `expand` returns Ok (no panic anywhere in
     scanner, header skippers, parse_idat, stream analysis, chunk writer) and `recreate` of its output
     returns exactly the file. Remaining hypothesis `hcorr`: corrections of every accepted candidate cut
     out of `f` (`Cand f d`: `d.length ≤ f.length` and every entry of `d` occurs in `f`) are below 2^32
     bytes. -/
 theorem library_round_trip (crc : Bytes → Nat) (f : Bytes)
-    (hb : ∀ b ∈ f, b < 256) (hf : f.length < 2 ^ 29)
+    (hb : ∀ b ∈ f, b < 256) (hf : f.length < 2 ^ 32)
     (hcorr : ∀ d r, Cand f d → libOracle.verified d = .ok r → r.corr.length < 2 ^ 32) :
     ∃ c, expand libOracle crc f = .ok c ∧ recreate libOracle crc c = .ok f :=
   Proofs.lib_round_trip crc f hb hf hcorr
@@ -70,7 +70,7 @@ theorem recreate_expand_on (o : Oracle) (crc : Bytes → Nat) (f : Bytes)
 theorem library_found_zlib (crc : Bytes → Nat) (pre suf s : Bytes) (h1 : Nat) (r : Res)
     (hh : h1 ∈ zlibSecond)
     (hb : ∀ b ∈ pre ++ zlibWrap h1 s ++ suf, b < 256)
-    (hlen : (pre ++ zlibWrap h1 s ++ suf).length < 2 ^ 29)
+    (hlen : (pre ++ zlibWrap h1 s ++ suf).length < 2 ^ 32)
     (hacc : libOracle.verified (s ++ suf) = .ok r) (hbig : r.plain.length > Gen.MIN_BLOCKSIZE)
     (hq : Quiet libOracle crc (pre ++ zlibWrap h1 s ++ suf) pre.length pre.length) :
     ∃ before prev after, prev ≤ pre.length ∧
@@ -82,7 +82,7 @@ theorem library_found_zlib (crc : Bytes → Nat) (pre suf s : Bytes) (h1 : Nat) 
 theorem library_found_gzip (crc : Bytes → Nat) (pre suf s : Bytes) (g : GzipFields) (r : Res)
     (hg : g.WF)
     (hb : ∀ b ∈ pre ++ gzipHeader g ++ s ++ suf, b < 256)
-    (hlen : (pre ++ gzipHeader g ++ s ++ suf).length < 2 ^ 29)
+    (hlen : (pre ++ gzipHeader g ++ s ++ suf).length < 2 ^ 32)
     (hacc : libOracle.verified (s ++ suf) = .ok r) (hbig : r.plain.length > Gen.MIN_BLOCKSIZE)
     (hq : Quiet libOracle crc (pre ++ gzipHeader g ++ s ++ suf) pre.length pre.length) :
     ∃ before prev after, prev ≤ pre.length ∧
@@ -94,7 +94,7 @@ theorem library_found_gzip (crc : Bytes → Nat) (pre suf s : Bytes) (g : GzipFi
 theorem library_found_zip (crc : Bytes → Nat) (pre suf s : Bytes) (z : ZipFields) (r : Res)
     (hn : z.name.length < 65536) (hx : z.extra.length < 65536)
     (hb : ∀ b ∈ pre ++ zipHeader z ++ s ++ suf, b < 256)
-    (hlen : (pre ++ zipHeader z ++ s ++ suf).length < 2 ^ 29)
+    (hlen : (pre ++ zipHeader z ++ s ++ suf).length < 2 ^ 32)
     (hacc : libOracle.verified (s ++ suf) = .ok r) (hbig : r.plain.length > Gen.MIN_BLOCKSIZE)
     (hq : Quiet libOracle crc (pre ++ zipHeader z ++ s ++ suf) pre.length pre.length) :
     ∃ before prev after, prev ≤ pre.length ∧
@@ -108,7 +108,7 @@ theorem library_found_idat (crc : Bytes → Nat) (pre suf s hdr adler : Bytes) (
     (hcat : pieces.flatten = hdr ++ s ++ adler) (hhdr : hdr.length = 2) (had : adler.length = 4)
     (hne : pieces ≠ [])
     (hb : ∀ b ∈ pre ++ idatWrap crc pieces ++ suf, b < 256)
-    (hlen : (pre ++ idatWrap crc pieces ++ suf).length < 2 ^ 29)
+    (hlen : (pre ++ idatWrap crc pieces ++ suf).length < 2 ^ 32)
     (hend : IdatEnd crc suf)
     (hacc : libOracle.verified s = .ok r) (hfull : r.size = s.length)
     (hbig : (idatWrap crc pieces).length > Gen.MIN_BLOCKSIZE)
@@ -119,9 +119,9 @@ theorem library_found_idat (crc : Bytes → Nat) (pre suf s hdr adler : Bytes) (
   Proofs.lib_found_idat crc pre suf s hdr adler pieces r hp hcrc hcat hhdr had hne hb hlen hend hacc hfull
     hbig hq
 
-/-- the premise `hacc` of the four, at the stream level: a byte candidate below 512 MiB is accepted
+/-- the premise `hacc` of the four, at the stream level: a byte candidate below 2^61 bytes is accepted
     with result `r` iff the byte-level model of `decompress_deflate_stream` returns Ok with `r` -/
-theorem library_accepts_iff (d : Bytes) (hb : ∀ b ∈ d, b < 256) (hd : d.length < 2 ^ 29) (r : Res) :
+theorem library_accepts_iff (d : Bytes) (hb : ∀ b ∈ d, b < 256) (hd : d.length < 2 ^ 61) (r : Res) :
     libOracle.verified d = .ok r ↔
     ∃ plain bytes q, decompressBytes Est.estimate Chains.pred false (toU8 d) = .ok (plain, bytes, r.size, q) ∧
       r = ⟨plain.toList, ofU8 bytes.toList, r.size⟩ :=
@@ -143,10 +143,10 @@ theorem library_error_clean (crc : Bytes → Nat) (c f : Bytes)
       (recreateIO libOracle crc ⟨c, rs⟩ ⟨[], ws⟩).2.2.out = f) :=
   Proofs.lib_error_clean crc c f hc rs ws hrz
 
-/-- **C01 + C13, concrete, end to end**: the container `expand` produces for a file below 512 MiB is
+/-- **C01 + C13, concrete, end to end**: the container `expand` produces for a file below 4 GiB is
     read back to exactly the file under any fragmentation, and fails cleanly under any error schedule -/
 theorem library_end_to_end (crc : Bytes → Nat) (f : Bytes)
-    (hb : ∀ b ∈ f, b < 256) (hf : f.length < 2 ^ 29)
+    (hb : ∀ b ∈ f, b < 256) (hf : f.length < 2 ^ 32)
     (hcorr : ∀ d r, Cand f d → libOracle.verified d = .ok r → r.corr.length < 2 ^ 32) :
     ∃ c, expand libOracle crc f = .ok c ∧ recreate libOracle crc c = .ok f ∧
       (∀ rs ws, OnlyShort rs → OnlyShort ws →
